@@ -1080,7 +1080,7 @@ theorem as_demo_segs : as_demo.st.segs =
   decide
 
 /-- the mmap contract for a mapping of `len` bytes served at `tbase` in the demo state -/
-theorem as_demo_osOk {tbase len : Nat} (os : List OsDir) (h16 : tbase % 16 = 0) (hpos : 0 < tbase) (hlen : tbase + len ≤ 2 ^ 64)
+theorem as_demo_osOk {tbase len : Nat} (os : List OsDir) (h16 : tbase % 4096 = 0) (hpos : 0 < tbase) (hlen : tbase + len ≤ 2 ^ 64)
     (hd : tbase + len ≤ 1048576 ∨ (1114112 ≤ tbase ∧ tbase + len ≤ 4194304) ∨ 4325376 ≤ tbase) :
     OsOk (as_demo.start (.m (some tbase) :: os)) len := by
   intro t q hq
@@ -1090,7 +1090,7 @@ theorem as_demo_osOk {tbase len : Nat} (os : List OsDir) (h16 : tbase % 16 = 0) 
     injection h1 with h1
     exact h1.symm
   subst this
-  refine ⟨h16, hpos, hlen, ?_⟩
+  refine ⟨⟨by omega, hpos, hlen, ?_⟩, h16⟩
   intro g hg
   have hg : g ∈ as_demo.st.segs := hg
   rw [as_demo_segs] at hg
@@ -1167,6 +1167,6 @@ example : ∃ hs' evs, RunOk Hist.init [(.malloc 1 100 8, [.m (some 1048576)]), 
     injection h1 with h1
     exact h1.symm
   subst this
-  exact ⟨by decide, by decide, by decide, fun g hg => by cases hg⟩
+  exact ⟨⟨by decide, by decide, by decide, fun g hg => by cases hg⟩, by decide⟩
 
 end TinyVerif.Dl
